@@ -199,6 +199,12 @@ fn flex_of(kid: &Value) -> Option<f64> {
     if let Some(f) = kid["flexf"].as_f64() {
         return Some(f);
     }
+    match kid["flexf"].as_str() {
+        Some("inf") => return Some(f64::INFINITY),
+        Some("-inf") => return Some(f64::NEG_INFINITY),
+        Some("nan") => return Some(f64::NAN),
+        _ => {}
+    }
     kid["flex"].as_i64().map(|k| k as f64 / 4.0)
 }
 
@@ -212,7 +218,7 @@ fn has_flex(v: &Value) -> bool {
 
 fn has_inexact(v: &Value) -> bool {
     match v {
-        Value::Object(m) => m.iter().any(|(k, x)| (k == "flexf" && x.is_number()) || has_inexact(x)),
+        Value::Object(m) => m.iter().any(|(k, x)| (k == "flexf" && (x.is_number() || x.is_string())) || has_inexact(x)),
         Value::Array(a) => a.iter().any(has_inexact),
         _ => false,
     }
@@ -277,7 +283,7 @@ fn build(node: &Value, env: &Arc<Env>) -> BView {
         }
         "frame" => {
             let c = color_from(node["color"].as_u64().unwrap_or(255));
-            Box::new(Frame::new(build(&node["v"], env), c, c, 0.1, 0.2))
+            Box::new(Frame::new(build(&node["v"], env), c, c, node["bw"].as_f64().unwrap_or(0.1), node["br"].as_f64().unwrap_or(0.2)))
         }
         "scroll" => {
             let (off, vis, den) = (node["off"].as_u64().unwrap_or(0), node["vis"].as_u64().unwrap_or(0), node["den"].as_u64().unwrap_or(8));
@@ -384,7 +390,10 @@ fn doc(node: &Value, env: &Env) -> Value {
                 .map(|k| {
                     let mut c = json!({"view": doc(&k["v"], env), "align": align_doc(&k["align"])});
                     if let Some(f) = flex_of(k) {
-                        c["flex"] = json!(f);
+                        // JSON has no literal for inf / NaN: such a factor cannot come from a document
+                        if f.is_finite() {
+                            c["flex"] = json!(f);
+                        }
                     }
                     if k["face"].is_object() {
                         c["face"] = json!(face_str(&k["face"]));
@@ -441,10 +450,17 @@ fn node_coq(node: &Value, env: &Env, genuine: bool) -> String {
         "str" => format!("(VStr {})", clist(vusizes(&node["s"]).iter().map(|c| c.to_string()))),
         "flex" => {
             let kids = clist(node["kids"].as_array().cloned().unwrap_or_default().iter().map(|k| {
-                let fl = match (k["flexf"].as_f64(), k["flex"].as_i64()) {
-                    (Some(f), _) => if f > 0.0 { "(Some 1%positive)".to_string() } else { "None".to_string() },
-                    (None, Some(q)) if q > 0 => format!("(Some {}%positive)", q),
-                    _ => "None".to_string(),
+                let fl = if !k["flexf"].is_null() {
+                    // an arbitrary double: a flex child iff finite and positive (the case is judged by the predicate alone)
+                    match flex_of(k) {
+                        Some(f) if f.is_finite() && f > 0.0 => "(Some 1%positive)".to_string(),
+                        _ => "None".to_string(),
+                    }
+                } else {
+                    match k["flex"].as_i64() {
+                        Some(q) if q > 0 => format!("(Some {}%positive)", q),
+                        _ => "None".to_string(),
+                    }
                 };
                 let face = if k["face"].is_object() { format!("(Some {})", face_coq(&face_from(&k["face"]))) } else { "None".to_string() };
                 format!("({}, {}, {}, {})", node_coq(&k["v"], env, genuine), fl, face, align_coq(&k["align"]))
@@ -570,9 +586,41 @@ fn run_case(input: &Value, env: &Arc<Env>, hh: usize, ww: usize, vops: &[VOp]) -
         let surf = SurfaceMutView::new(shape, &mut data[..]);
         view.render(&ctx, surf, layout.view()).expect("render");
     }
+    // the nine fragments Frame paints, per frame colour of the tree: rendered once into a 3 x 3 scratch
+    // surface (Frame caches its fragments per colour and context, so the images are the same objects)
+    let mut frags: Vec<(surf_n_term::Image, u64)> = vec![];
+    if env.defs.ctx.has_glyphs() {
+        let mut colors = vec![];
+        frame_colors(&input["tree"], &mut colors);
+        for (col, bw, br) in colors {
+            let c = color_from(col);
+            let fr = Frame::new((), c, c, bw, br);
+            let mut st = ViewLayoutStore::new();
+            let lay = fr.layout_new(&ctx, BoxConstraint::tight(Size::new(3, 3)), &mut st).expect("layout");
+            let mut scratch = SurfaceOwned::<Cell>::new(Size::new(3, 3));
+            fr.render(&ctx, scratch.as_mut(), lay.view()).expect("render");
+            for r in 0..3 {
+                for cc in 0..3 {
+                    if let Some(cell) = scratch.get(Position::new(r, cc)) {
+                        if let surf_n_term::render::CellKind::Image(img) = cell.kind() {
+                            frags.push((img.clone(), (cc + 3 * r) as u64));
+                        }
+                    }
+                }
+            }
+        }
+    }
     let mut nums = vec![];
     for c in &data {
+        let at = nums.len();
         env.defs.cell_nums(c, &mut nums);
+        if nums[at + 3] == 2 && nums[at + 4] == 999 {
+            if let surf_n_term::render::CellKind::Image(img) = c.kind() {
+                if let Some((_, idx)) = frags.iter().find(|(f, _)| f == img) {
+                    nums[at + 4] = 1000 + idx;
+                }
+            }
+        }
     }
     // find_path for every position of a grid a little larger than the root
     let root = layout.view();
@@ -703,8 +751,8 @@ pub fn run(input: &Value) -> Case {
         vops_coq(&vops),
         cbool(glyphs),
         defs.width_table(&chars),
-        PPC_H,
-        PPC_W,
+        defs.ctx.pixels_per_cell().height,
+        defs.ctx.pixels_per_cell().width,
         ct[0],
         ct[1],
         ct[2],
@@ -745,6 +793,26 @@ pub fn run(input: &Value) -> Case {
         format!("root={}", input["tree"]["t"].as_str().unwrap_or("?")),
     ];
     Case { coq: format!("{} {}", head, res), json: j, tags, nontrivial }
+}
+
+fn frame_colors(v: &Value, out: &mut Vec<(u64, f64, f64)>) {
+    match v {
+        Value::Object(m) => {
+            if m.get("t").and_then(|t| t.as_str()) == Some("frame") {
+                let c = (
+                    m.get("color").and_then(|c| c.as_u64()).unwrap_or(255),
+                    m.get("bw").and_then(|c| c.as_f64()).unwrap_or(0.1),
+                    m.get("br").and_then(|c| c.as_f64()).unwrap_or(0.2),
+                );
+                if !out.contains(&c) {
+                    out.push(c);
+                }
+            }
+            m.values().for_each(|x| frame_colors(x, out));
+        }
+        Value::Array(a) => a.iter().for_each(|x| frame_colors(x, out)),
+        _ => {}
+    }
 }
 
 fn collect_chars(v: &Value, out: &mut Vec<u32>) {
@@ -865,7 +933,11 @@ fn gen_node(rng: &mut Rng, g: &mut Gen, depth: usize) -> Value {
                     };
                     let mut kid = json!({"v": gen_node(rng, g, depth - 1), "flex": flex, "face": if rng.chance(1, 4) { gen_small_face(rng) } else { Value::Null }, "align": gen_align(rng)});
                     if g.inexact && rng.chance(1, 2) {
-                        kid["flexf"] = json!(*rng.pick(&[1.0f64, 1e-20, 1e300, 0.1, 0.2, 0.3, 3.3, 1e-300, 5e-324, 1.7976931348623157e308, 2.5, -1e-20, 0.0, 7.0]));
+                        kid["flexf"] = if rng.chance(1, 6) {
+                            json!(*rng.pick(&["inf", "-inf", "nan"]))
+                        } else {
+                            json!(*rng.pick(&[1.0f64, 1e-20, 1e300, 0.1, 0.2, 0.3, 3.3, 1e-300, 5e-324, 2.2250738585072014e-308, 1.7976931348623157e308, 2.5, -1e-20, 0.0, 7.0]))
+                        };
                     }
                     kid
                 })
@@ -883,7 +955,8 @@ fn gen_node(rng: &mut Rng, g: &mut Gen, depth: usize) -> Value {
             json!({"t": "container", "v": gen_node(rng, g, depth - 1), "face": if rng.chance(1, 3) { gen_small_face(rng) } else { json!({"fg": null, "bg": null, "attrs": 0}) },
                    "av": gen_align(rng), "ah": gen_align(rng), "m": m, "size": [gen_extent(rng), gen_extent(rng)]})
         }
-        7 => json!({"t": "frame", "v": gen_node(rng, g, depth - 1), "color": ((rng.below(256) << 24) | 0x1020ff) as u64}),
+        7 => json!({"t": "frame", "v": gen_node(rng, g, depth - 1), "color": ((rng.below(256) << 24) | 0x1020ff) as u64,
+                    "bw": *rng.pick(&[0.1f64, 0.1, 0.0, 1.0, 0.5]), "br": *rng.pick(&[0.2f64, 0.2, 0.0, 1.0, 0.5])}),
         8 => json!({"t": "tag", "tag": rng.below(100), "v": gen_node(rng, g, depth - 1)}),
         9 => {
             if rng.chance(1, 2) {
@@ -957,7 +1030,8 @@ pub fn generate(rng: &mut Rng, n: usize, _tier: &str) -> Vec<Value> {
             vops.push(json!("t"));
         }
         vops.push(json!({"r": {"f": "rng", "a": pad[0], "b": pad[0] + vh}, "c": {"f": "rng", "a": pad[1], "b": pad[1] + vw}}));
-        v.push(json!({"H": hh, "W": ww, "vops": vops, "glyphs": rng.chance(1, 2), "route": *rng.pick(&["ctor", "ctor", "ref", "json"]),
+        let ppc = if rng.chance(1, 3) { vec![1 + rng.below(40), 1 + rng.below(24)] } else { vec![PPC_H as u64, PPC_W as u64] };
+        v.push(json!({"H": hh, "W": ww, "vops": vops, "ppc": ppc, "glyphs": rng.chance(1, 2), "route": *rng.pick(&["ctor", "ctor", "ref", "json"]),
                       "glyph_defs": glyph_defs, "image_defs": image_defs, "ct": [minh, minw, maxh, maxw], "tree": tree}));
     }
     v
